@@ -433,7 +433,11 @@ func (c23) Execute(sc *engine.Scenario) *engine.Result {
 			res.Sig("program/long-line")
 			return res
 		}
-		res.Harness = fmt.Sprintf("C23 program did not reach its end (PC=%04x, end=%04x)", m.CPU.VerifGetRegs().PC, end)
+		// the program has not reached its end within the run (a timer set to overflow every few cycles
+		// keeps the CPU in its handlers, say): what was delivered has been judged against the SB stores that
+		// were executed, which is all this property asks
+		res.Probe("program_did_not_finish_in_time")
+		res.Sig("program/unfinished")
 		return res
 	}
 	if m.SerialClosed > 0 && res.Violation == nil {
